@@ -27,6 +27,8 @@ type sqlGen struct {
 	names    []string // field names / aliases usable in order by
 	absTime  bool     // both time bounds absolute (statement is time independent)
 	future   bool     // an absolute bound lies after the wall clock
+	// number of `*` / duration operands emitted inside expressions
+	badOperands int
 	hasWhere bool
 	// the absolute bounds in epoch milliseconds (valid when absTime)
 	wantStart, wantEnd int64
@@ -90,7 +92,28 @@ func (g *sqlGen) number() string {
 	return s
 }
 
+// badOperand: `*` or a duration literal used as an operand — the grammar allows both as a
+// fieldExpr, the listener builds no node for them, so the enclosing node is left with a nil child;
+// validation() must reject such a statement.
+func (g *sqlGen) badOperand() string {
+	g.badOperands++
+	if g.r.Intn(2) == 0 {
+		return "*"
+	}
+	return g.duration()
+}
+
 func (g *sqlGen) fieldExpr(d int, top bool) string {
+	if !top && g.r.Intn(60) == 0 {
+		switch g.r.Intn(3) {
+		case 0:
+			return g.fieldExpr(d-1, false) + " + " + g.badOperand()
+		case 1:
+			return "(" + g.badOperand() + ")"
+		default:
+			return g.badOperand() + " * " + g.fieldExpr(d-1, false)
+		}
+	}
 	k := g.r.Intn(10)
 	if d <= 0 {
 		k = g.r.Intn(4)
